@@ -44,6 +44,7 @@ type Case struct {
 	Module  *progen.Module `json:"module,omitempty"`
 	Corpus  string         `json:"corpus,omitempty"`
 	Configs []Config       `json:"configs"`
+	Header  string         `json:"header,omitempty"` // -header_file content for generated programs
 	AutoSites bool         `json:"autosites,omitempty"` // add one single-site flip per site reached with >= 2 keys in the baseline
 }
 
@@ -260,6 +261,7 @@ func RunCase(b *common.Build, st *Stats, c *Case, dir string) *Outcome {
 	case "gen":
 		p = &program{target: []string{"./..."}}
 		p.app, p.ext = c.Module.Files(false)
+		p.header = []byte(c.Header)
 		for _, pk := range c.Module.Pkgs {
 			if pk.Idx >= c.Module.Ext {
 				p.pkgs = append(p.pkgs, pk.Path)
@@ -491,8 +493,27 @@ func GenCase(r *rand.Rand, thorough bool) *Case {
 	if r.IntN(2) == 0 {
 		k.ExtPkgs = 1 + r.IntN(2)
 	}
+	if r.IntN(2) == 0 {
+		// same package name under several paths: import names differ from file to file
+		k.Adversary = true
+		k.ValuePct = 60
+		k.NSets = 3 + r.IntN(4)
+	}
 	m := progen.Generate(r, k)
 	c := &Case{Kind: "gen", Module: m, AutoSites: r.IntN(3) == 0}
+	if r.IntN(3) == 0 {
+		c.Header = "// Copyright 2026 Example Authors. All rights reserved.\n\n"
+	}
+	if r.IntN(5) == 0 {
+		// a few tiny packages: one provider, one injector each
+		k.NTypes = k.NPkgs
+		k.InjPerPkg = 1
+		k.FanIn = 0
+		k.NSets = 0
+		c.Module = progen.Generate(r, k)
+		m = c.Module
+		c.Header = "// Tiny.\n\n"
+	}
 	var pkgs []string
 	for _, pk := range m.Pkgs {
 		if pk.Idx >= m.Ext {
